@@ -972,7 +972,7 @@ func runHistory(c *hx.Ctx, r *hx.Rng, idx int, workers int, thorough bool) error
 		maxSelfLevel:    []uint16{0, 2, 3}[r.Intn(3)],
 		levelMergeNum:   []int{8, 2, 3}[r.Intn(3)],
 		maxUnorderedNum: []int{64, 64, 2, 3}[r.Intn(4)],
-		segRows:         []int{0, 0, 16, 32}[r.Intn(4)],
+		segRows:         []int{0, 0, 16, 32, 12}[r.Intn(5)], // 12: not a multiple of 8 (merge repaired in /repo 2a205e1)
 	}
 	if v := c.Arg("segrows", ""); v != "" {
 		k.segRows, _ = strconv.Atoi(v)
